@@ -2175,6 +2175,14 @@ def m_stat_is(eng, args, kwargs, node, frame):
     return VBool(and_const(t, 0o170000) == want)
 
 
+@model("stat.S_IFMT")
+def m_stat_ifmt(eng, args, kwargs, node, frame):
+    t = as_int(eng, args[0])
+    if t is None:
+        return eng.opaque_call("stat.S_IFMT(opaque)", [], node, may_raise=False, havoc_args=False)
+    return VInt(and_const(t, 0o170000))
+
+
 @model("setattr")
 def m_setattr(eng, args, kwargs, node, frame):
     obj, name, value = args[0], args[1], args[2]
